@@ -87,6 +87,15 @@ def space(tier: str, which: str):
             yield from emit(long_run(C, 5, 12, triples=True))
             yield from emit(product_defs(W, 3, 3))
             yield from emit(product_defs(C, 4, 4))
+    elif which == "medium":  # C08
+        if tier == "quick":
+            yield from emit(product_defs(W, 2))
+            yield from emit(eof_defs(C, 1))
+        else:
+            yield from emit(product_defs(W, 2))
+            yield from emit(product_defs(C, 3, 3))
+            yield from emit(eof_defs(C, 1))
+            yield from emit(long_run(C, 8, 12, triples=False))
     elif which == "small":  # C08 / C09 / C19
         if tier == "quick":
             yield from emit(product_defs(W, 1))
